@@ -1,9 +1,9 @@
-\* simulation: random strings of length <= 40 over the union alphabet (tlc -simulate)
+\* simulation: random strings of length 16..40 over the union alphabet (tlc -simulate)
 \* alphabet: NUL NL CR SP ' ' '!' '"' '#' '$' '%' '&' "'" '(' ')' '*' '+' ',' '-' '.' '/' '0' '1' '7' '8' '9' ':' ';' '<' '=' '>' '?' '@' 'C' '[' '\\' ']' '^' '_' '`' 'a' 'b' 'c' 'e' 'i' 'n' 'o' 'p' 'r' 'x' 'y' '{' '|' '}' '~' BADBYTE LETTER UDIGIT BOM CR TAB 'c' 'y' 'p'
 SPECIFICATION Spec
 CONSTANTS
   Alphabet = {0, 9, 10, 13, 32, 33, 34, 35, 36, 37, 38, 39, 40, 41, 42, 43, 44, 45, 46, 47, 48, 49, 55, 56, 57, 58, 59, 60, 61, 62, 63, 64, 67, 91, 92, 93, 94, 95, 96, 97, 98, 99, 101, 105, 110, 111, 112, 114, 120, 121, 123, 124, 125, 126, 255, 257, 1633, 65279}
-  MinLen = 1
+  MinLen = 16
   MaxLen = 40
   Dialects = {"xgo"}
   CommentModes = {TRUE, FALSE}
